@@ -173,8 +173,23 @@ def case(draw, tier="quick", all_matched=None):
         "perf": perf,
         "align": align,
         "tempo_mode": mode,
-        "score_as": draw(st.sampled_from(["part", "part", "score"])),
+        # audit: a PartGroup with the part as only child is a documented ScoreLike too
+        "score_as": draw(st.sampled_from(["part", "part", "score", "group"])),
         "perf_as": draw(st.sampled_from(["ppart", "ppart", "performance"])),
+        # ---- generator audit (docs/audit/C18.md); every key is read with spec.get()
+        # tempo_smooth may be a callable (documented): a user-defined curve on the unique score onsets
+        "callable_curve": draw(st.sampled_from([None, None, "constant", "scaled", "zigzag"])),
+        # rows / snote_ids handed to decode_performance in another order than encode_performance returned them
+        "decode_order": draw(st.sampled_from(["given", "given", "permuted", "reversed"])),
+        "perm_keys": draw(st.lists(st.integers(0, 1000), min_size=len(hs), max_size=len(hs))),
+        "extra_cfg": draw(st.integers(0, 9)),
+        "return_alignment": draw(st.booleans()),
+        "name_decoded_part": draw(st.booleans()),
+        # alignment ids as numpy strings (an alignment built from the id columns of note arrays)
+        "ids_as_numpy": draw(st.integers(0, 3)) == 0,
+        # one alignment list handed to every call (the codec rewrites score ids in place)
+        "reuse_alignment": draw(st.integers(0, 2)) == 0,
+        "markings": draw(st.integers(0, 2)) == 0,
     }
 
 
@@ -185,7 +200,13 @@ def build_inputs(spec):
     from pbt.gen.build import build_part
 
     part, _ = build_part(spec["part"])
-    score = part if spec.get("score_as", "part") == "part" else S.Score(partlist=[part], id="s")
+    sa = spec.get("score_as", "part")
+    if sa == "group":
+        score = S.PartGroup(group_symbol="bracket", group_name="G")
+        score.children = [part]
+        part.parent = score
+    else:
+        score = part if sa == "part" else S.Score(partlist=[part], id="s")
     notes = []
     for pn in spec["perf"]:
         on = pn["on"] / 1000.0
@@ -197,5 +218,13 @@ def build_inputs(spec):
 
 
 def alignment_copy(spec):
-    """The SUT converts score ids in place; always hand it a fresh list of fresh dicts."""
-    return [dict(a) for a in spec["align"]]
+    """The SUT converts score ids in place; hand it a fresh list of fresh dicts (ids as numpy strings if asked)."""
+    out = [dict(a) for a in spec["align"]]
+    if spec.get("ids_as_numpy", False):
+        import numpy as np
+
+        for a in out:
+            for k in ("score_id", "performance_id"):
+                if k in a:
+                    a[k] = np.str_(a[k])
+    return out
